@@ -208,6 +208,9 @@ func (k Keeper) UpdatePool(ctx sdk.Context, poolID uint64, description string, u
 		}
 	} else if !serviceFees.Native.IsZero() {
 		// Allow adding service fees without purchasing more shield.
+		if err := k.bk.SendCoinsFromAccountToModule(ctx, updater, types.ModuleName, serviceFees.Native); err != nil {
+			return pool, err
+		}
 		totalServiceFees := k.GetServiceFees(ctx)
 		totalServiceFees = totalServiceFees.Add(types.MixedDecCoins{Native: sdk.NewDecCoinsFromCoins(serviceFees.Native...)})
 		k.SetServiceFees(ctx, totalServiceFees)
